@@ -162,3 +162,84 @@ mod as_str {
         s.parse().map_err(|_| serde::de::Error::custom("bad 128-bit integer"))
     }
 }
+
+/// what a round trip through the same definition must return: every transient field takes its declared default
+pub fn with_transient_defaults(ty: &Ty, v: &Val) -> Val {
+    wtd(ty, v, &mut Vec::new())
+}
+
+fn wtd<'a>(ty: &'a Ty, v: &Val, stack: &mut Vec<&'a std::sync::Arc<crate::ty::Decl>>) -> Val {
+    use Ty::*;
+    match (ty, v) {
+        (Option(t), Val::Some(x)) => Val::some(wtd(t, x, stack)),
+        (Result(t, _), Val::Ok(x)) => Val::Ok(std::boxed::Box::new(wtd(t, x, stack))),
+        (Result(_, e), Val::Err(x)) => Val::Err(std::boxed::Box::new(wtd(e, x, stack))),
+        (Tuple(ts), Val::Tuple(xs)) => Val::Tuple(ts.iter().zip(xs).map(|(t, x)| wtd(t, x, stack)).collect()),
+        (Vec(t) | Array(t, _) | LinkedList(t) | Slice(t) | RcSlice(t) | HashSet(t) | BTreeSet(t), Val::Seq(xs)) => Val::Seq(xs.iter().map(|x| wtd(t, x, stack)).collect()),
+        (HashMap(k, w) | BTreeMap(k, w), Val::Map(ps)) => Val::Map(ps.iter().map(|(a, b)| (wtd(k, a, stack), wtd(w, b, stack))).collect()),
+        (Box(t) | Rc(t) | Arc(t) | Ref(t), x) => wtd(t, x, stack),
+        (Adt(d), x) => {
+            stack.push(d);
+            let r = wtd_decl(d, x, stack);
+            stack.pop();
+            r
+        }
+        (Rec(name), x) => {
+            let d = *stack.iter().rev().find(|d| &d.name == name).expect("Rec target");
+            stack.push(d);
+            let r = wtd_decl(d, x, stack);
+            stack.pop();
+            r
+        }
+        (_, x) => x.clone(),
+    }
+}
+
+fn wtd_decl<'a>(d: &'a std::sync::Arc<crate::ty::Decl>, x: &Val, stack: &mut Vec<&'a std::sync::Arc<crate::ty::Decl>>) -> Val {
+    let fields = |r: &'a crate::ty::Record, fs: &std::vec::Vec<Val>, stack: &mut Vec<&'a std::sync::Arc<crate::ty::Decl>>| -> std::vec::Vec<Val> {
+        r.fields
+            .iter()
+            .zip(fs)
+            .map(|(f, x)| match &f.transient {
+                Some(d) => d.clone(),
+                None => wtd(&f.ty, x, stack),
+            })
+            .collect()
+    };
+    match (&d.body, x) {
+        (DeclBody::Struct(r), Val::Rec(fs)) => Val::Rec(fields(r, fs, stack)),
+        (DeclBody::Enum { variants, .. }, Val::Variant(i, fs)) => Val::Variant(*i, fields(&variants[*i].record, fs, stack)),
+        (_, x) => x.clone(),
+    }
+}
+
+/// the same declaration under names no compiled declaration has, so that the run-time interpreter (E3) handles it
+pub fn dynamized(ty: &Ty) -> Ty {
+    use Ty::*;
+    let a = |t: &Ty| std::sync::Arc::new(dynamized(t));
+    match ty {
+        Option(t) => Option(a(t)),
+        Result(t, e) => Result(a(t), a(e)),
+        Tuple(ts) => Tuple(ts.iter().map(dynamized).collect()),
+        Vec(t) => Vec(a(t)),
+        Array(t, n) => Array(a(t), *n),
+        LinkedList(t) => LinkedList(a(t)),
+        HashSet(t) => HashSet(a(t)),
+        BTreeSet(t) => BTreeSet(a(t)),
+        HashMap(k, v) => HashMap(a(k), a(v)),
+        BTreeMap(k, v) => BTreeMap(a(k), a(v)),
+        Box(t) => Box(a(t)),
+        Rc(t) => Rc(a(t)),
+        Arc(t) => Arc(a(t)),
+        Rec(n) => Rec(format!("Dyn_{n}")),
+        Adt(d) => {
+            let rec = |r: &crate::ty::Record| crate::ty::Record { fields: r.fields.iter().map(|f| crate::ty::Field { ty: dynamized(&f.ty), ..f.clone() }).collect(), steps: r.steps.clone() };
+            let body = match &d.body {
+                DeclBody::Struct(r) => DeclBody::Struct(rec(r)),
+                DeclBody::Enum { sorted, variants } => DeclBody::Enum { sorted: *sorted, variants: variants.iter().map(|v| crate::ty::Variant { record: rec(&v.record), ..v.clone() }).collect() },
+            };
+            Adt(std::sync::Arc::new(crate::ty::Decl { name: format!("Dyn_{}", d.name), body }))
+        }
+        other => other.clone(),
+    }
+}
